@@ -69,6 +69,11 @@ fn one_history(run: &Run, case: u64) {
     p.target_entries = 5 + rng.below(10) as usize;
     p.max_plain_size = 8192;
     let mut w = World::new("c02", &mut rng, p, run.seed ^ case);
+    if case % 25 == 3 {
+        // scale: hundreds of entries and blocks, long names, deep nesting
+        w.widen(&mut rng);
+        run.count("histories_on_wide_and_deep_trees", 1);
+    }
     let n_steps = 6 + rng.below(run.tier.pick(14, 20)) as usize;
     let mut descs: Vec<String> = Vec::new();
     let mut max_complete = 0usize;
